@@ -191,6 +191,10 @@ func (this *contractExecutor) Execute(transaction *types.Transaction, header *ty
 	if common.IsProposal015() {
 		gasUsed := gasLimit - leftOverGas
 		gasFeeUsed := new(big.Int).Mul(new(big.Int).SetUint64(gasUsed), defaultGasPrice)
+		if balance := accountdb.GetBalance(common.HexToAddress(transaction.Source)); balance.Cmp(gasFeeUsed) < 0 {
+			// the execution may have spent the sender's reserve (AUTHCALL pays from tx.origin): never credit more than is debited
+			gasFeeUsed = balance
+		}
 		accountdb.SubBalance(common.HexToAddress(transaction.Source), gasFeeUsed)
 		accountdb.AddBalance(common.FeeAccount, gasFeeUsed)
 		context["gasUsed"] = gasUsed
